@@ -46,6 +46,15 @@ type Rec struct {
 	TraceOn      bool
 	sample       any
 	inconclusive string
+	poisoned     bool
+}
+
+// Poisoned reports that the case must not attempt an orderly shutdown.
+func (r *Rec) Poisoned() bool {
+	r.mu.Lock()
+	defer r.mu.Unlock()
+
+	return r.poisoned
 }
 
 // NewRec creates a recorder for a property.
@@ -66,6 +75,11 @@ func (r *Rec) Violate(kind, sig, format string, args ...any) {
 	props := kindProps[kind]
 	if props == nil {
 		props = []string{r.Prop}
+	}
+	if kind == "lock-held" {
+		// a leaked mutex makes every later teardown step block on it (not a durable block for the
+		// virtual clock): the bubble cannot be wound down and the process must be abandoned
+		r.poisoned = true
 	}
 	if len(r.viol) < 20 {
 		r.viol = append(r.viol, Violation{Props: props, Kind: kind, Sig: kind + ":" + sig, Detail: fmt.Sprintf(format, args...), Step: r.step})
